@@ -189,6 +189,40 @@ func vh_C10_Map() {
 	vfReach("end")
 }
 
+// a mapped publisher keeps publishing fn(v) for every v of its origin through any subscription history of its own:
+// subscriptions come and go (also down to none, also from inside a callback) before the origin publishes
+func vh_C10_MapResubscribe() {
+	p := PublisherNewGenerics[int]()
+	m := p.Map(func(v int) int { return vfFn("F", v) })
+	var got []int
+	var first *Subscription[int]
+	selfRemove := vfChoose("first-removes-itself-in-callback", 2) == 1
+	first = m.Subscribe(Subscription[int]{OnNext: func(v int) {
+		if selfRemove {
+			m.Unsubscribe(first)
+		}
+	}})
+	vfNoPanic("nopanic", func() {
+		if selfRemove {
+			p.Publish(vfInt("v0")) // the only subscriber of m removes itself while being served
+		} else {
+			m.Unsubscribe(first)
+		}
+		if vfChoose("second-churn", 2) == 1 {
+			tmp := m.Subscribe(Subscription[int]{OnNext: func(v int) {}})
+			m.Unsubscribe(tmp)
+		}
+		m.Subscribe(Subscription[int]{OnNext: func(v int) { got = append(got, v) }})
+	})
+	v := vfInt("v")
+	vfNoPanic("nopanic-publish2", func() { p.Publish(v) })
+	vfAssert("mapped-count", len(got) == 1)
+	if len(got) == 1 {
+		vfAssert("mapped-value", got[0] == vfFn("F", v))
+	}
+	vfReach("end")
+}
+
 func vh_C10_SubscribeOn() {
 	h := Handler.New()
 	hid := -1
